@@ -37,7 +37,11 @@ CHECKS.update({
 CHECKS.update({
 "C18":("exploration","One event (buffer 0-4, Notify on/off) with a producer, an optional second token holder and an intruder publishing concurrently while 1-4 consumers on the same and on a second node (simulated TCP) subscribe by link/monitor, unsubscribe and re-subscribe, and the producer unregisters or terminates; interval-based oracle for exactly-once in-order delivery after subscription, buffer replay, token enforcement, end notifications and start/stop notifications."),
 })
-NA={}
+CHECKS.update({
+"C15":("exploration","Cookie matrix (node / acceptor / route cookies, limits, flags) between two real nodes over simulated TCP with agreement checks on both ends; an adversary without the cookie plays silence, garbage, truncation, oversized length, a forged handshake with made-up digests and byte-exact replays of recorded Hello/Introduce and Join transcripts followed by a forged message frame; permission histories (Enable/Disable Spawn and ApplicationStart with node lists) exercised by two peers against a reference table, including environment exposure."),
+"C16":("exploration","A live three-node cluster with background traffic receives 1-8 units of mutated traffic (bit flips, truncation, length/type/order fields, splices, garbage, compressed envelopes with lying sizes, mutated handshakes) derived from frames captured in the same run and injected into a live link or a fresh dial; oracles: no process crash, quiescence within the step budget, bounded allocation per unit, bystander connection / stream / local processes unaffected, re-encode agreement of whatever still decodes."),
+})
+NA={"C11":"EDF round trip is a statement about a pure function of the value and an explicitly passed cache configuration: no schedule, clock, fault, crash point or second party is involved, so deterministic simulation with fault injection has nothing to decide (values sent through C12's simulated cluster exercise it incidentally; no C11 claim is derived from that)."}
 def chk(pid):
     level,text=CHECKS[pid]
     return {"property_id":pid,"quick_cmd":f"./check {pid} --tier quick","thorough_cmd":f"./check {pid} --tier thorough",
